@@ -171,9 +171,12 @@ func cmdCheck(args []string) int {
 	for _, l := range prop.Lemmas {
 		run.results = append(run.results, eng.verifyLemma(l))
 	}
-	timeout := 10
+	// generous budgets: obligations are decided in well under a second as a
+	// rule; the budget only matters for the few heavy ones, and running out
+	// of it on an unchanged tree would be a false alarm
+	timeout := 25
 	if tier == "thorough" {
-		timeout = 60
+		timeout = 90
 	}
 	outDir := filepath.Join(outDirBase(), "out")
 	// obligations that do not belong to this property are not solved
